@@ -4,7 +4,7 @@
    The same runners are evaluated by the extracted OCaml driver and by vm_compute inside Coq. *)
 Require Import Base.Bytes Gen.Tables.
 Require Import Model.Util Model.Headers Model.Methods Model.Origins Model.Netip Model.Idna
-  Model.Pattern Model.Radix Model.CfgErrors Model.Config Model.Serve Model.Mw Model.Prov.
+  Model.Pattern Model.Radix Model.CfgErrors Model.Config Model.Serve Model.Mw Model.Prov Model.Index.
 Require Import Spec.Origins Spec.AcrhList Spec.Wire Spec.Fetch Spec.ConfigDoc Spec.DebugSM.
 Open Scope N_scope.
 Import Coq.Strings.String.StringSyntax.
@@ -529,6 +529,24 @@ Definition run_prov (x : sx) : sx :=
               (SL [sbool del; SL mt])
   end.
 
+(* ---------- split: splitAtCommonSuffix, index-level model vs the Go function (C17) ---------- *)
+Definition run_split (x : sx) : sx :=
+  let l := get_list x in
+  let a := get_bytes (field "a" l) in
+  let c := get_bytes (field "c" l) in
+  let impl := get_blist (field "impl" l) in      (* (ra rc com), or () if the Go function panicked *)
+  match split_at_common_suffix a c with
+  | Panic => verdict (match impl with [] => true | _ => false end) false (sym "panic")
+  | Ok (ra, rc, com) =>
+      let m := SL [SB ra; SB rc; SB com] in
+      verdict (sx_eqb m (SL (map SB impl)))
+              (match impl with
+               | [ia; ic; icom] => beqb (ia ++ icom) a && beqb (ic ++ icom) c &&
+                                   (match rev ia, rev ic with x :: _, y :: _ => negb (x =? y) | _, _ => true end)
+               | _ => false
+               end) m
+  end.
+
 (* dispatcher: a case is (family id (k v)...) *)
 Definition run_case (x : sx) : sx :=
   match x with
@@ -545,6 +563,7 @@ Definition run_case (x : sx) : sx :=
         else if beqb fam (b "roundtrip") then run_roundtrip (SL body)
         else if beqb fam (b "pattern") then run_pattern (SL body)
         else if beqb fam (b "prov") then run_prov (SL body)
+        else if beqb fam (b "split") then run_split (SL body)
         else SL [sbool false; sbool false; sym "unknown-family"] in
       SL [id; r]
   | _ => SL [sym "bad-case"]
